@@ -201,25 +201,43 @@ func c19ExprExec(c *mon.Case) {
 	calc.SetExpression(src)
 	before = calcSnapshot(calc, colls)
 	h3.seed = seed
-	atomic.StoreInt32(&h3.enabled, 1)
-	var wg sync.WaitGroup
 	bad := make([]string, G)
-	for g := 0; g < G; g++ {
-		wg.Add(1)
-		go func(g int) {
-			defer wg.Done()
-			k := g % len(envs)
-			own := envs[k].collection()
-			for n := 0; n < reps; n++ {
-				if got := evalString(calc, own); got != want[k] {
-					bad[g] = fmt.Sprintf("goroutine %d, evaluation %d, variables=%s: sequential result %s, concurrent result %s", g, n, envs[k], want[k], got)
-					return
+	// Two passes.  Pass 1 with hook H3 recording and yielding (interleavings are observed and steered).  Pass 2 on
+	// another fresh calculator with the hooks removed altogether: the monitor's own lock and atomics order the
+	// goroutines' steps and would hide races from the race detector, so the detector also gets a run without them.
+	for pass := 1; pass <= 2; pass++ {
+		if pass == 2 {
+			calculator.VerifEvalHook = nil
+			calc = calculator.NewExpressionCalculator()
+			calc.SetExpression(src)
+		} else {
+			atomic.StoreInt32(&h3.enabled, 1)
+		}
+		start := make(chan struct{})
+		var wg sync.WaitGroup
+		for g := 0; g < G; g++ {
+			wg.Add(1)
+			go func(g int) {
+				defer wg.Done()
+				k := g % len(envs)
+				own := envs[k].collection()
+				<-start
+				for n := 0; n < reps; n++ {
+					if got := evalString(calc, own); got != want[k] {
+						bad[g] = fmt.Sprintf("goroutine %d, evaluation %d, variables=%s: sequential result %s, concurrent result %s", g, n, envs[k], want[k], got)
+						return
+					}
 				}
-			}
-		}(g)
+			}(g)
+		}
+		close(start)
+		wg.Wait()
+		if pass == 1 {
+			atomic.StoreInt32(&h3.enabled, 0)
+		} else {
+			installEvalHooks()
+		}
 	}
-	wg.Wait()
-	atomic.StoreInt32(&h3.enabled, 0)
 	sig, switches := h3Signature()
 	c.Mark("distinct-interleavings-of-evaluation-steps", sig)
 	c.CountN("goroutine-switches-inside-evaluations", switches)
@@ -233,7 +251,7 @@ func c19ExprExec(c *mon.Case) {
 		c.Failf("concurrent evaluation modified the compiled program or the function table", "expression=%q\nbefore %s\nafter  %s", src, before, after)
 		return
 	}
-	c.AddEvals(len(envs)*4+G*reps-1, 0)
+	c.AddEvals(len(envs)*4+2*G*reps-1, 0)
 	c.NonTrivial()
 }
 
@@ -280,28 +298,43 @@ func c19TmplExec(c *mon.Case) {
 	t.SetTemplate(src)
 	before = mtoks(t.ResultTokens())
 	h3.seed = seed
-	atomic.StoreInt32(&h3.enabled, 1)
-	var wg sync.WaitGroup
 	bad := make([]string, G)
-	for gi := 0; gi < G; gi++ {
-		wg.Add(1)
-		go func(gi int) {
-			defer wg.Done()
-			k := gi % len(maps)
-			own := map[string]string{}
-			for a, b := range maps[k] {
-				own[a] = b
-			}
-			for n := 0; n < reps; n++ {
-				if got := render(own); got != want[k] {
-					bad[gi] = fmt.Sprintf("goroutine %d, rendering %d, variables=%q: sequential %s, concurrent %s", gi, n, own, want[k], got)
-					return
+	for pass := 1; pass <= 2; pass++ { // pass 2: hooks removed, see shared-calculator
+		if pass == 2 {
+			mustache.VerifEvalHook = nil
+			t = mustache.NewMustacheTemplate()
+			t.SetTemplate(src)
+		} else {
+			atomic.StoreInt32(&h3.enabled, 1)
+		}
+		start := make(chan struct{})
+		var wg sync.WaitGroup
+		for gi := 0; gi < G; gi++ {
+			wg.Add(1)
+			go func(gi int) {
+				defer wg.Done()
+				k := gi % len(maps)
+				own := map[string]string{}
+				for a, b := range maps[k] {
+					own[a] = b
 				}
-			}
-		}(gi)
+				<-start
+				for n := 0; n < reps; n++ {
+					if got := render(own); got != want[k] {
+						bad[gi] = fmt.Sprintf("goroutine %d, rendering %d, variables=%q: sequential %s, concurrent %s", gi, n, own, want[k], got)
+						return
+					}
+				}
+			}(gi)
+		}
+		close(start)
+		wg.Wait()
+		if pass == 1 {
+			atomic.StoreInt32(&h3.enabled, 0)
+		} else {
+			installEvalHooks()
+		}
 	}
-	wg.Wait()
-	atomic.StoreInt32(&h3.enabled, 0)
 	sig, switches := h3Signature()
 	c.Mark("distinct-interleavings-of-evaluation-steps", sig)
 	c.CountN("goroutine-switches-inside-evaluations", switches)
@@ -315,7 +348,7 @@ func c19TmplExec(c *mon.Case) {
 		c.Failf("rendering modified the compiled template", "template=%q\nbefore %s\nafter  %s", src, before, after)
 		return
 	}
-	c.AddEvals(len(maps)*3+G*reps-1, 0)
+	c.AddEvals(len(maps)*3+2*G*reps-1, 0)
 	c.NonTrivial()
 }
 
